@@ -40,6 +40,18 @@ CHECKS = {
         "Denotation clause only for grammar-clean headers; lenient extraction from other text is judged by the structural clause "
         "and the exception class. Either rejection accepted when a header is both malformed and unsatisfiable.",
     ),
+    "C06": (
+        "fault_enumeration",
+        "exhaustive schedule enumeration with a gated producer / consumer thread / watchdog (WSGI) and Hypothesis + exhaustive disconnect-instant grid on a virtual-time event loop (ASGI); invariants over the history",
+        "WSGI SendEventResponse: every feasible schedule over {producer yields/raises/finishes, consume, consume-while-empty, close} up to length 5 "
+        "(quick) / 7 (thorough) plus generated schedules up to 12 is executed against the real relay thread with the harness owning both "
+        "ends; close()/next() must return under a watchdog, the generator's finally must run exactly once, no pool future may stay running, "
+        "delivery must be an in-order prefix. ASGI StreamResponse/SendEventResponse (bare and in request_response): producer delays, send "
+        "delay, ping interval and disconnect instant from a 0.25 grid on a deterministic virtual-time loop (a dry loop is a detected hang), "
+        "return-time bounds, cleanup counts snapshotted inside the loop, leftover tasks, delivery prefix.",
+        "Schedules are owned at producer-step/consumer-step/close granularity; inside a queue hand-off CPython schedules. Watchdog 5 s, confirmed at 20 s. "
+        "ASGI return bound includes the server's own send time (3 x send delay).",
+    ),
     "C08": (
         "exploration",
         "exhaustive enumeration of a small text domain per convertor type + Hypothesis route tables/paths against a reference matcher with explicit per-type languages",
